@@ -286,6 +286,10 @@ def block_files():
         "test": [{"k": "ct_add_test", "doc": 1}, {"k": "ct_add_section", "doc": 1, "expectfail": 1},
                  {"k": "ct_add_section", "doc": 0, "impl": "macro"}],
         # doccomments on the declaration AND on the definition that implements it (only acceptance is judged here)
+        "false_blocks": [{"k": "if", "doc": 0, "args": ["FALSE"]}, {"k": "function", "doc": 1, "params": []},
+                         {"k": "if", "doc": 0, "args": ["0"]}, {"k": "close"}, {"k": "if", "doc": 0, "args": ["OFF"]},
+                         {"k": "macro", "doc": 0, "params": []}, {"k": "close"}, {"k": "close"}, {"k": "close"},
+                         {"k": "cpp_class", "doc": 1}, {"k": "if", "doc": 0, "args": ["FALSE"]}],
         "documented_closers": [{"k": "function", "doc": 1, "params": []}, {"k": "macro", "doc": 0, "params": []},
                                {"k": "close", "doc": 1}, {"k": "close", "doc": 1}, {"k": "cpp_class", "doc": 1},
                                {"k": "close", "doc": 1}, {"k": "if", "doc": 0}, {"k": "close", "doc": 1}],
@@ -320,6 +324,20 @@ def documented_uses(lexemes):
         out.append((f"class/attr/member with {L!r}", f"{d}cpp_class(C {L})\n{d}cpp_attr(C a {L})\n{d}cpp_member(m C {L})\n"
                                                       f"function(\"${{m}}\" self {L})\nendfunction()\ncpp_end_class()\n"))
         out.append((f"test with {L!r}", f"{d}ct_add_test(NAME {L})\nfunction({L})\nendfunction()\n"))
+    return out
+
+
+def boundary_files():
+    """valid files larger than the usual I/O buffer sizes with a multi-byte character whose bytes straddle a multiple of
+    4096/8192/65536 (comment padding in front, a command after)"""
+    out = []
+    for boundary in (4096, 8192, 16384, 65536, 131072):
+        for ch in ("é", "✓", "\U0001F600"):
+            for back in range(1, len(ch.encode()) + 0):
+                head = "# pad\n"
+                fill = boundary - back - len(head.encode()) - 2
+                text = head + "# " + "x" * fill + ch + " tail\nset(A \"" + ch + "\")\nmessage(STATUS done)\n"
+                out.append((f"{ch!r} straddling byte {boundary} (-{back})", text))
     return out
 
 
@@ -372,6 +390,7 @@ def run(ctx):
     ctx.sweep(check_file, block_files(), space="block structures x command-name case", selftest=3)
     ctx.sweep(check_file, documented_uses(LEX if not quick else [l for l in LEX if l in CORE or l in BRA or l in QUO]),
               space="documented commands x lexemes", selftest=3)
+    ctx.sweep(check_file, boundary_files(), space="multi-byte characters at buffer boundaries", selftest=2)
     # 3b. signature of documented generic commands (arguments without line breaks)
     one_line = [l for l in LEX if "\n" not in l]
     sig_jobs = [[a] for a in one_line] + [[a, b] for a in CORE for b in CORE if "\n" not in a + b]
